@@ -19,6 +19,7 @@
 // the allocation/free sequence, which the scheduler makes deterministic.
 //
 // Compiled WITHOUT the shim prefix: it uses the real atomics.
+#include <pthread.h>
 #include <malloc.h>
 #include <atomic>
 #include <cstdint>
@@ -55,6 +56,25 @@ struct Guard
   }
   ~Guard() { g_lock.clear(std::memory_order_release); }
 };
+
+// fork(): the child must not inherit the list lock in the locked state (it may have been
+// taken by a thread that does not exist there). Registered at start-up, i.e. before any at-fork
+// handler of the code under test: taken after their prepare handlers ran, released before their
+// parent/child handlers run, so those may allocate.
+void fork_lock()
+{
+  while (g_lock.test_and_set(std::memory_order_acquire))
+  {
+  }
+}
+void fork_unlock()
+{
+  g_lock.clear(std::memory_order_release);
+}
+struct ForkInit
+{
+  ForkInit() { pthread_atfork(fork_lock, fork_unlock, fork_unlock); }
+} g_fork_init;
 
 void *take(size_t n)
 {
